@@ -98,11 +98,15 @@ func (c *Conn) Sendfile(f *os.File, remain int64) (int64, error) {
 			// After this Sendfile func returns, fs will be closed by the caller.
 			// So we need to dup the fd and close it when we don't need it any more.
 			src, err = syscall.Dup(src)
-			if err == nil {
-				c.newToWriteFile(src, offset, remain)
-				// c.appendWrite(t)
-				c.modWrite()
+			if err != nil {
+				// the remainder can not be queued: fail instead of reporting it as sent.
+				c.closed = true
+				_ = c.closeWithErrorWithoutLock(err)
+				return 0, err
 			}
+			c.newToWriteFile(src, offset, remain)
+			// c.appendWrite(t)
+			c.modWrite()
 			break
 		}
 		if err != nil {
